@@ -254,9 +254,6 @@ func genHistory(w *World, seed uint64, cfg GenCfg, ops io.Writer, obs io.Writer)
 		}
 		b.Votes = r.VotesFor(h, absent)
 		ntx := g.R.W(25, 40, 20, 10, 5)
-		if h == 1 {
-			ntx = 0 // nothing is committed before block 1: accounts cannot be looked up for signing
-		}
 		wildSigner := map[int]bool{}
 		for j := 0; j < ntx; j++ {
 			tx := g.GenTx(s, h)
